@@ -595,7 +595,7 @@ func c07NewHist(r *RunCtx, k int, pool []c07Merkle) (*c07Hist, error) {
 	for i, m := range pool {
 		h.merkles[hex.EncodeToString(m.Root)] = uint64(i + 1)
 	}
-	params := e.App.StorageKeeper.GetParams(e.Ctx)
+	params := StorageParams(e)
 	h.window, h.cw = params.ProofWindow, params.CheckWindow
 	for i := 1; i <= 3; i++ {
 		if err := e.Fund(Acct(i), "ujkl", 1_000_000_000_000_000_000); err != nil {
